@@ -228,7 +228,7 @@ impl EnabledCompressionEncodings {
     u.raw(cg.STREAM)
     u._emit('impl<T> Streaming<T> {'); u._open_header = 'impl<T> Streaming<T> {'
     nob = [lambda t: t.sub_code('R12', r'\bwhere\s+B: HttpBody[^{]*', '')]
-    u.fn(D, 'new_request', within='impl<T> Streaming<T>', sig_edits=nob,
+    u.fn(D, 'new_request', within='impl<T> Streaming<T>', sig_edits=nob, props=['C02', 'C05', 'C06'],   # callee of map_request_*: encoding (C05) and size limit (C06) are passed through it
          ensures=[Clause('N3_request_stream', 'r.direction == Direction::Request && r.encoding == encoding && r.max_message_size == max_message_size && r.body@ == erased(body) && r.decoder@ == erased_decoder(decoder)')])
     u.close('}')
     u.item(CO, 'enum', 'SingleMessageCompressionOverride', derives='Clone, Copy, PartialEq, Eq, Structural')
